@@ -314,7 +314,28 @@ func c14(c *Ctx) {
 			"the session added to the channel's member list does not get the channel in its own Channels set (missing, or done on a different session)")
 		// the value is a fresh, non-nil status entry
 		okVal := false
-		if u, ok := ast.Unparen(w.val).(*ast.UnaryExpr); w.val != nil && ok && u.Op == token.AND {
+		val := w.val
+		// … possibly through a local that is defined once, right there, in the same block as the insert (so: once per
+		// insert) — `perms := &[…]bool{}; c.nicks[nick] = perms`
+		if id, isID := ast.Unparen(val).(*ast.Ident); val != nil && isID {
+			if d := uniqueDef(info, fi.Node(), id); d != nil {
+				if o := astx.Obj(info, id); o != nil {
+					// the innermost block around the insert declares the local: one definition per execution of the insert
+					var innermost *ast.BlockStmt
+					ast.Inspect(fi.Body(), func(n ast.Node) bool {
+						if b, ok := n.(*ast.BlockStmt); ok && b.Pos() <= w.node.Pos() && w.node.End() <= b.End() {
+							innermost = b
+						}
+						return true
+					})
+					sameBlock := innermost != nil && innermost.Pos() <= o.Pos() && o.Pos() <= innermost.End()
+					if sameBlock {
+						val = d
+					}
+				}
+			}
+		}
+		if u, ok := ast.Unparen(val).(*ast.UnaryExpr); val != nil && ok && u.Op == token.AND {
 			if _, ok := ast.Unparen(u.X).(*ast.CompositeLit); ok {
 				okVal = true
 			}
